@@ -54,7 +54,19 @@ def line_equal(a, b, proj):
         if k == 'p':
             if ta[1] != tb[1]:
                 return False
-            if not proj.get('ignore_xyz'):
+            if proj.get('xyz_rigid_tol') and not proj.get('ignore_xyz'):
+                # points that went through the rigid transform: the error vector of the projection (1 mm + 2^-20 per
+                # component) is rotated with the point, so each component is judged against the length of the whole vector
+                va = [float(ta[i]) for i in (2, 3, 4)]; vb = [float(tb[i]) for i in (2, 3, 4)]
+                if any(math.isnan(v) for v in va + vb):
+                    if not all(math.isnan(v) for v in va + vb):
+                        return False
+                else:
+                    norm = math.sqrt(sum(v * v for v in vb)) + proj['xyz_rigid_tol']
+                    tol = 2.0 * XYZ_ABS + 2.0 * XYZ_REL * norm
+                    if any(abs(x - y) > tol for x, y in zip(va, vb)):
+                        return False
+            elif not proj.get('ignore_xyz'):
                 for i in (2, 3, 4):
                     if not close_xyz(float(ta[i]), float(tb[i])):
                         return False
